@@ -387,6 +387,23 @@ Theorem Link_linked_restart :
 Proof. exact linked_restart. Qed.
 Print Assumptions Link_linked_restart.
 
+(* the 2^32 guards above follow from the size facts L2's own invariants carry
+   for the tail segment (cfg_ok: limit < 2^30; sop_ok: batch < 2^30;
+   CrashInv.fsz_ok: 8 n <= end <= limit + 8 while unsealed) *)
+Theorem Link_l2_append_guard :
+  forall w2 ls,
+    ws_limit w2 < 1073741824 -> ws_off w2 <= ws_limit w2 + 8 -> 8 * ws_n w2 <= ws_off w2 ->
+    frames_size ls < 1073741824 ->
+    ws_off w2 + l2_total w2 ls < two32.
+Proof. exact l2_append_guard. Qed.
+Print Assumptions Link_l2_append_guard.
+Theorem Link_l2_force_seal_guard :
+  forall w2,
+    ws_limit w2 < 1073741824 -> ws_off w2 <= ws_limit w2 + 8 -> 8 * ws_n w2 <= ws_off w2 ->
+    ws_off w2 + fs_total w2 < two32.
+Proof. exact l2_force_seal_guard. Qed.
+Print Assumptions Link_l2_force_seal_guard.
+
 (* ================================================================== *)
 (* Non-vacuity: a concrete file (limit 256), a batch of two records      *)
 Definition lk_info : seginfo :=
